@@ -16,8 +16,18 @@ Explorer C (bounded-exhaustive inputs) over the REAL ``Codec.decode`` and the RE
      plus the single-byte edits of (b) on the live loop (a fixed set of byte
      values in the quick tier, all 256 in the thorough tier).
 
-Every input of (a), (b), (c) goes through three stages on the bare decoder:
+The table (c) also holds defects that sit INSIDE an open repeating group (field
+without '=', non-numeric / empty tag, empty field, frame without CheckSum ending
+in a group item) and well-FRAMED messages (correct BodyLength and CheckSum) that
+are malformed for the session layer (non-numeric / empty / missing MsgSeqNum,
+missing MsgType or CompIDs, admin messages with non-numeric numbers).  Valid
+traffic alternates plain frames, frames with a group and frames with a nested group.
+
+Every input of (a), (b), (c) goes through these stages on the bare decoder, all on
+ONE Codec instance per input (as a connection uses one), never shared between inputs:
   single      decode(input)
+  state_leak  three valid frames (plain / group / nested group) decoded right after
+              it must give exactly what a fresh instance gives
   one_buffer  repeated decoding of input + 2 valid frames in ONE buffer
   chunked     the read loop's buffer discipline replayed by hand: the input is one
               read, then valid frames arrive one read each (drop ``consumed`` bytes
@@ -36,7 +46,8 @@ Oracle (three valued, independent of codec.py):
                     + trailer) the LAST valid frame must be returned.  Frames
                     swallowed as collateral of a resync are unconstrained.
   live_*            same on the live endpoint: a later frame reaches on_message,
-                    the receive buffer ends small, no livelock.  A disconnect
+                    the receive buffer ends small, no livelock, no frame is
+                    delivered twice.  A disconnect
                     decided by the session layer is unconstrained here.
 """
 import itertools
@@ -906,7 +917,8 @@ def run(ctx):
     corpus = ST["corpus"]
     ctx.rule = ("(a) every string of <= %d grammar tokens out of %d; (b) every 1-byte substitution/deletion/insertion "
                 "at every position of each corpus frame; (c) a table of grammar-aware malformed frames and every "
-                "truncation/head cut of a frame. Each input: decode alone, repeated decode of input+2 valid frames in "
+                "truncation/head cut of a frame, defects inside an open group, well-framed session-level malformed "
+                "messages. Each input on one Codec instance: decode alone, 3 valid probe frames after it, repeated decode of input+2 valid frames in "
                 "one buffer, and the read-loop buffer discipline with valid frames arriving one read each; table "
                 "inputs and edits (quick: 8 byte values, thorough: all) also on a live World1 acceptor followed by "
                 ">=1200 valid bytes. non-trivial = input whose first frame candidate has a start marker and >= 3 "
